@@ -1,6 +1,6 @@
 //go:build verif
 
-package tkn20
+package tkn20_test
 
 // C20, cryptographic level: one deterministic Setup; for every distinct parsed
 // policy of the formula space and every attribute assignment, the attribute key
@@ -19,8 +19,9 @@ import (
 	"encoding/binary"
 	"errors"
 	"fmt"
+	"github.com/cloudflare/circl/abe/cpabe/tkn20"
+	"github.com/cloudflare/circl/internal/verifref/c20hooks"
 	"os"
-	"reflect"
 	"sort"
 	"strings"
 	"sync"
@@ -128,7 +129,7 @@ func c20ToLegacy(ct, seed []byte) ([]byte, error) {
 }
 
 // c20Encrypt encrypts with a labelled deterministic reader and also returns the seed that reader yields first.
-func c20Encrypt(pk *PublicKey, label string, p *Policy, msg []byte) (ct, seed []byte, err error, panicked string) {
+func c20Encrypt(pk *tkn20.PublicKey, label string, p *tkn20.Policy, msg []byte) (ct, seed []byte, err error, panicked string) {
 	seed = make([]byte, c20SeedSize)
 	verifmc.NewDetReader(label).Read(seed)
 	if pn, w := verifmc.Try(func() { ct, err = pk.Encrypt(verifmc.NewDetReader(label), *p, msg) }); pn {
@@ -154,7 +155,7 @@ func c20ReadFixture(t testing.TB, name string) []byte {
 // test encrypts; only Setup's consumption of the stream is relied on, and checked through the id.)
 func c20RefcheckLegacy(t *testing.T, r *verifmc.Run) {
 	prng := sha3.NewShake128()
-	pk, _, err := Setup(prng)
+	pk, _, err := tkn20.Setup(prng)
 	if err != nil {
 		t.Fatalf("Setup: %v", err)
 	}
@@ -181,7 +182,7 @@ func c20RefcheckLegacy(t *testing.T, r *verifmc.Run) {
 	r.Count("legacy_converter_fixture_match", 1)
 	r.Eval(1)
 	// informational: does this tree still regenerate its golden ciphertext?
-	var pol Policy
+	var pol tkn20.Policy
 	if err := pol.FromString("EU: true"); err == nil {
 		var ct []byte
 		if pn, _ := verifmc.Try(func() { ct, err = pk.Encrypt(prng, pol, []byte(c20FixtureMsg)) }); !pn && err == nil {
@@ -193,8 +194,8 @@ func c20RefcheckLegacy(t *testing.T, r *verifmc.Run) {
 // ---- system fixture ---------------------------------------------------------------------------
 
 type c20Sys struct {
-	pk  PublicKey
-	msk SystemSecretKey
+	pk  tkn20.PublicKey
+	msk tkn20.SystemSecretKey
 }
 
 var (
@@ -206,7 +207,7 @@ var (
 func c20System(t testing.TB) *c20Sys {
 	c20SysOnce.Do(func() {
 		s := &c20Sys{}
-		s.pk, s.msk, c20SysErr = Setup(verifmc.NewDetReader("c20/setup"))
+		s.pk, s.msk, c20SysErr = tkn20.Setup(verifmc.NewDetReader("c20/setup"))
 		c20SysV = s
 	})
 	if c20SysErr != nil {
@@ -217,8 +218,8 @@ func c20System(t testing.TB) *c20Sys {
 
 type c20Key struct {
 	asg    c20Asg
-	sk     AttributeKey // as generated
-	rt     AttributeKey // after MarshalBinary / UnmarshalBinary
+	sk     tkn20.AttributeKey // as generated
+	rt     tkn20.AttributeKey // after MarshalBinary / UnmarshalBinary
 	rtOK   bool
 	nAttrs int
 }
@@ -267,7 +268,7 @@ const (
 	c20DecPanic = 3
 )
 
-func c20Decrypt(sk *AttributeKey, ct, msg []byte) (int, string) {
+func c20Decrypt(sk *tkn20.AttributeKey, ct, msg []byte) (int, string) {
 	var pt []byte
 	var err error
 	if pn, w := verifmc.Try(func() { pt, err = sk.Decrypt(ct) }); pn {
@@ -290,21 +291,19 @@ type c20Member struct {
 
 type c20Group struct {
 	space   string
-	pol     *Policy
+	pol     *tkn20.Policy
 	canon   string
 	members []c20Member
 	nLeaves int
 }
 
-func c20Canon(p *Policy) string {
-	var sb strings.Builder
-	for _, w := range p.policy.Inputs {
-		fmt.Fprintf(&sb, "%s:%s:%v;", w.Label, w.RawValue, w.Positive)
+// c20Canon: the grouping key of a parsed policy: its complete structural dump; without the in-package read-out, its
+// printed form (formulas that print alike are then encrypted once; every member is still judged against its own verdict).
+func c20Canon(p *tkn20.Policy) string {
+	if c20hooks.PolicyDump != nil {
+		return c20hooks.PolicyDump(p)
 	}
-	for _, g := range p.policy.F.Gates {
-		fmt.Fprintf(&sb, "%d(%d,%d)>%d;", g.Class, g.In0, g.In1, g.Out)
-	}
-	return sb.String()
+	return "printed:" + p.String()
 }
 
 // c20Groups parses every formula and groups the formulas by parsed structure (a ciphertext depends on the
@@ -321,10 +320,6 @@ func c20Groups(r *verifmc.Run, space string, forms []*abe.Node) []*c20Group {
 		}
 		c := c20Canon(p)
 		g := idx[c]
-		if g != nil && !reflect.DeepEqual(g.pol.policy, p.policy) {
-			c += "#" + s0 // same dump, different scalars: keep apart
-			g = nil
-		}
 		if g == nil {
 			g = &c20Group{space: space, pol: p, canon: c, nLeaves: abe.NumLeaves(f)}
 			idx[c] = g
@@ -424,14 +419,14 @@ func c20RunGroup(r *verifmc.Run, sys *c20Sys, g *c20Group, gi int, keys []*c20Ke
 	}
 	for _, c := range cts {
 		// without the key: extracted policy
-		var ex Policy
+		var ex tkn20.Policy
 		var exErr error
 		if pn, w := verifmc.Try(func() { exErr = ex.ExtractFromCiphertext(c.ct) }); pn || exErr != nil {
 			viol("Policy.ExtractFromCiphertext", "fails/"+c.name, fmt.Sprintf("ExtractFromCiphertext(%s ciphertext of %q): %v %s", c.name, rep.s0, exErr, w), nil)
 		} else {
 			r.Eval(1)
 			// the extracted policy must itself survive print / parse
-			var q Policy
+			var q tkn20.Policy
 			var qerr error
 			var str string
 			if pn, w := verifmc.Try(func() { str = ex.String(); qerr = q.FromString(str) }); pn || qerr != nil {
@@ -660,7 +655,7 @@ func c20RepeatedLabelFormulas(thorough bool) []*abe.Node {
 // c20ReservedLabel reads the label of the internal Boneh-Katz attribute out of a key issued for NO attributes
 // (marshalled key: len16 | attributes = count16, then len16 label, 33-byte attribute ...).
 func c20ReservedLabel(t testing.TB, sys *c20Sys) string {
-	var none Attributes
+	var none tkn20.Attributes
 	none.FromMap(map[string]string{})
 	k, err := sys.msk.KeyGen(verifmc.NewDetReader("c20/key/none"), none)
 	if err != nil {
@@ -727,8 +722,8 @@ func c20KeyRoundTrips(r *verifmc.Run, sys *c20Sys) {
 	if r.Replaying() {
 		return
 	}
-	var pk2 PublicKey
-	var msk2 SystemSecretKey
+	var pk2 tkn20.PublicKey
+	var msk2 tkn20.SystemSecretKey
 	var err error
 	var b []byte
 	if pn, w := verifmc.Try(func() {
@@ -754,21 +749,21 @@ func c20KeyRoundTrips(r *verifmc.Run, sys *c20Sys) {
 		c20Violation(r, "C20|SystemSecretKey.MarshalBinary|roundtrip-not-equal|setup", "keys|msk", "UnmarshalBinary(MarshalBinary()) of the system secret key is not Equal to it", nil)
 	}
 	// the round-tripped pair must interoperate with the original one, both ways
-	var pol Policy
+	var pol tkn20.Policy
 	if err := pol.FromString("(a:1 and not b:1)"); err != nil {
 		c20Violation(r, "C20|Policy.FromString|error/style=full|leaves=2,not=leaf", "keys|interop", err.Error(), nil)
 		return
 	}
-	var at Attributes
+	var at tkn20.Attributes
 	at.FromMap(map[string]string{"a": "1", "b": "2"})
 	msg := []byte("c20 key round trip")
 	for _, x := range []struct {
 		name string
-		pk   *PublicKey
-		msk  *SystemSecretKey
+		pk   *tkn20.PublicKey
+		msk  *tkn20.SystemSecretKey
 	}{{"pk'+msk", &pk2, &sys.msk}, {"pk+msk'", &sys.pk, &msk2}} {
 		var ct []byte
-		var sk AttributeKey
+		var sk tkn20.AttributeKey
 		var st int
 		var detail string
 		if pn, w := verifmc.Try(func() {
@@ -817,7 +812,7 @@ func TestVerifC20_messages(t *testing.T) {
 	}
 	lens = uniq
 	r.Set("lengths", fmt.Sprintf("0..%d and %v", top, lens[top+1:]))
-	var pol Policy
+	var pol tkn20.Policy
 	if err := pol.FromString("(a:1 and not b:1)"); err != nil {
 		c20Violation(r, "C20|Policy.FromString|error/style=full|leaves=2,not=leaf", "messages|parse", err.Error(), nil)
 		return
@@ -932,7 +927,7 @@ type c20AlterSubject struct {
 	format string
 	ct     []byte
 	msg    []byte
-	key    *AttributeKey
+	key    *tkn20.AttributeKey
 	sat    bool // the key decrypts the unaltered ciphertext
 	mode   string
 	off    int
@@ -949,8 +944,8 @@ func TestVerifC20_alter(t *testing.T) {
 	r.Rule("per subject ciphertext (v1.3.8 generated, legacy = committed fixture ciphertext_v137 with its fixture key): flip one bit, Decrypt; allowed outcomes: error, or exactly the " +
 		"original message; a different message is a violation (a panic is recorded as an outcome and left to C10); non-trivial = distinct (subject, bit)")
 	sys := c20System(t)
-	mk := func(pol string, am map[string]string, msg []byte, label string) (ct []byte, sk *AttributeKey) {
-		var p Policy
+	mk := func(pol string, am map[string]string, msg []byte, label string) (ct []byte, sk *tkn20.AttributeKey) {
+		var p tkn20.Policy
 		if err := p.FromString(pol); err != nil {
 			t.Fatalf("FromString(%q): %v", pol, err)
 		}
@@ -958,7 +953,7 @@ func TestVerifC20_alter(t *testing.T) {
 		if err != nil || pn != "" {
 			t.Fatalf("Encrypt: %v %s", err, pn)
 		}
-		var at Attributes
+		var at tkn20.Attributes
 		at.FromMap(am)
 		k, err := sys.msk.KeyGen(verifmc.NewDetReader(label+"/key"), at)
 		if err != nil {
@@ -971,7 +966,7 @@ func TestVerifC20_alter(t *testing.T) {
 	_, k1bad := mk("a:1", map[string]string{"a": "2", "b": "1"}, msg1, "c20/alter/1bad")
 	msg2 := []byte("c20 second message")
 	ct2, k2 := mk("(a:1 and not b:1)", map[string]string{"a": "1", "b": "2"}, msg2, "c20/alter/2")
-	fixKey := new(AttributeKey)
+	fixKey := new(tkn20.AttributeKey)
 	if err := fixKey.UnmarshalBinary(c20ReadFixture(t, "attributeKey")); err != nil {
 		t.Fatalf("fixture attributeKey: %v", err)
 	}
